@@ -36,10 +36,16 @@ CHECKS = {
          "histories without bulk clear() (excluded by the property); Modified is checked as iff, not as a count", "DESIGN.md 4/C12"),
  "C13": ("worldsim", "exploration", "deterministic simulation: restricted-storage joins (read, shared-write, exclusive lending) over model-generated contents with stale/dead/un-merged other-entity lookups and seeded subsets fetched mutably",
          "Visited indices, own values, other-entity lookups, writes and Modified events are compared with the model.",
-         "sequential and lending forms here; the parallel form is exercised by joinsim when built", "DESIGN.md 4/C13"),
+         "sequential and lending forms in worldsim; parallel forms (restrict / restrict_mut par_join) in joinsim mode A/B", "DESIGN.md 4/C13"),
  "C19": ("worldsim", "fault_enumeration", "deterministic simulation with fault injection: for each seeded history every destructor call the model predicts for every destroying operation (and world teardown) is made to panic, one execution per (operation, call) pair, caught, ledger + lookups checked, model re-synchronised narrowly, run continued under the strict oracle",
          "No value destroyed twice, no lookup/join/slice exposes a destroyed value, world usable afterwards; all four protection mechanisms named by the property were shown to be caught when removed.",
          "one fault armed at a time; faults keyed on value identity (hash-map drop order is per-process); fault points per history enumerated up to a cap of 48+", "DESIGN.md 4/C19"),
+ "C07": ("joinsim", "exploration", "deterministic simulation of the work-stealing bridge: (A) seeded split tree over the real private JoinProducer (cfg(specs_verif) hook) with leaves as baton-scheduled tasks and in-hand tracking, (B) rayon's real bridge on a virtual pool of N workers with one running thread; oracle from the reference contents",
+         "Delivered multiset = expected intersection (none missing, none twice), no index in two hands at once, item contents = model, storages afterwards = mutation applied exactly once per item, for 10 member mixes, 18 storage configurations, widths to 265k, pool sizes 1..1000.",
+         "split trees are sampled; visibility after par_join returns is rayon's join guarantee", "DESIGN.md 3/E2, 4/C07"),
+ "C11": ("dispatchsim", "exploration", "deterministic simulation of the dispatcher: generated system graphs with runtime-composed system data built from the real reads()/writes()/fetch(); (1) declaration-vs-borrow probing, (2) shred's printed stage plan executed on the baton scheduler, (3) adversarial maximal-parallel executor; reader/writer monitor",
+         "Every system once, no writer overlapping another user of the same storage, dependencies respected, no borrow panic; what a storage handle borrows equals what it declares.",
+         "shred's Stage::execute/rayon replaced by baton tasks; planner behaviour is shred's", "DESIGN.md 3/E3, 4/C11"),
 }
 
 NOT_APPLICABLE = {
@@ -82,6 +88,8 @@ def main():
             "add_only": True,
         },
         "engines": [
+            {"name": "joinsim", "path": "/verif/dst/src/joinsim.rs", "serves_properties": ["C07", "C13"], "kind_free_text": "parallel joins under a simulated work-stealing bridge (seeded split tree + baton tasks) and under rayon's real bridge on a virtual pool"},
+            {"name": "dispatchsim", "path": "/verif/dst/src/dispatchsim.rs", "serves_properties": ["C11"], "kind_free_text": "system graphs: declaration-vs-borrow, shred's plan on the baton executor, adversarial executor"},
             {"name": "worldsim", "path": "/verif/dst/src/wexec.rs", "serves_properties": [p for p,(e,*_) in CHECKS.items() if e == "worldsim"], "kind_free_text": "frame-loop simulator: real specs::World vs reference model, baton-scheduled parallel phases, destructor-fault injection, crash = world dropped mid-frame"},
         ],
         "checks": checks,
